@@ -4,7 +4,7 @@ CONSTANTS
   FixedWindowRaw = FALSE
   FixedWatchdogRestart = FALSE
   ValMode = 2
-  NBases = 5
+  NBases = 7
 SPECIFICATION Spec
 INVARIANTS TypeOK ReadBack NonAliasing HiddenFrame ReadPurity PathsAgree ChannelIndependent
 CHECK_DEADLOCK FALSE
